@@ -134,12 +134,23 @@ SAME_URI_RULES.update({
 VERBS = ("get", "put", "post", "delete", "patch")
 
 
-def mk_yaml(apis, rules, title="widgets.example.com"):
-    """rules: list of dicts with 'selector' + HttpRule fields, in order."""
+def mk_yaml(apis, rules, title="widgets.example.com", selective=None, package=None):
+    """rules: list of dicts with 'selector' + HttpRule fields, in order.
+    selective: ['Service.Rpc', ...] — selective GAPIC generation with that allow-list, the omitted rpcs kept as internal."""
     y = {"type": "google.api.Service", "config_version": 3, "name": title, "apis": [{"name": a} for a in apis]}
     if rules:
         y["http"] = {"rules": [dict(r) for r in rules]}
+    if selective is not None:
+        y["publishing"] = {"library_settings": [{"version": package, "python_settings": {"common": {"selective_gapic_generation": {
+            "methods": [f"{package}.{m}" for m in selective], "generate_omitted_as_internal": True}}}}]}
     return y
+
+
+def internal_rpcs(services, selective):
+    """{service: [rpcs kept as internal methods]} for an allow-list of 'Service.Rpc' entries (None: no selective generation)."""
+    if selective is None:
+        return {s: [] for s, _ in services}
+    return {s: [m for m in ms if f"{s}.{m}" not in selective] for s, ms in services}
 
 
 def rule(selector, spec):
